@@ -449,6 +449,39 @@ impl RE {
     }
 }
 
+/// Read-only observation hooks (feature `verif`)
+#[cfg(feature = "verif")]
+impl RE {
+    /// unique id of this term
+    pub fn verif_id(&self) -> usize {
+        self.id
+    }
+
+    /// abstract syntax of this term
+    pub fn verif_expr(&self) -> &BaseRegLan {
+        &self.expr
+    }
+
+    /// derivative classes of this term
+    pub fn verif_deriv_class(&self) -> &CharPartition {
+        &self.deriv_class
+    }
+}
+
+/// Read-only observation hooks (feature `verif`)
+#[cfg(feature = "verif")]
+impl ReManager {
+    /// number of terms in the table
+    pub fn verif_num_terms(&self) -> usize {
+        self.id2re.len()
+    }
+
+    /// term of a given id
+    pub fn verif_term(&self, id: usize) -> RegLan {
+        self.id2re[id]
+    }
+}
+
 /// Iterator to go through all sub-terms of a RegLan
 /// We can't implement this in RE because of lifetime issues
 #[derive(Debug)]
